@@ -105,7 +105,7 @@ class Det:
             self.events += list(map(str, vals))
 
     def line(self):
-        return f"det {self.src} {self.dst or '-'} {self.delay} " + " ".join(self.ops)
+        return f"det {self.src} {self.dst or '-'} {self.delay}{'u' if getattr(self, 'until', False) else ''} " + " ".join(self.ops)
 
 
 def gen_det(ctx):
@@ -116,6 +116,9 @@ def gen_det(ctx):
     for k in range(n):
         delay = [0, 1, 200, 1000][k % 4]
         d = Det(rand_call(r), rand_call(r, True), delay)
+        d.until = (k // 4) % 2 == 1            # every other group of four drains with get_until() instead of get(timeout)
+        if d.until:
+            ctx.count("det-consumer-get_until")
         nk = r.range(1, 3)
         for j in range(nk):
             lastk = j == nk - 1
@@ -196,7 +199,9 @@ def gen_rand(ctx):
         # every fourth case: the consumer starts draining only 0.3 .. 0.6 s after the first byte (a stalled reader)
         stall = r.range(300, 600) if k % 4 == 3 else 0
         out.append({"src": rand_call(r), "dst": rand_call(r, True), "delay": delay, "seed": r.below(1 << 31), "keyups": keyups,
-                    "maxsamples": maxs, "pace": pace, "extra_on": int(r.chance(1, 2)), "stall": stall})
+                    "maxsamples": maxs, "pace": pace, "extra_on": int(r.chance(1, 2)), "stall": stall, "until": (k // 3) % 2 == 1})
+        if out[-1]["until"]:
+            ctx.count("rand-consumer-get_until")
         if stall:
             ctx.count("rand-consumer-stall")
     if ctx.tier == "thorough":
@@ -213,7 +218,7 @@ def gen_rand(ctx):
 
 
 def rand_line(c):
-    return f"rand {c['src']} {c['dst'] or '-'} {c['delay']} {c['seed']} {c['keyups']} {c['maxsamples']} {c['pace']} {c['extra_on']} {c.get('stall', 0)} {c.get('minsamples', 0)}"
+    return f"rand {c['src']} {c['dst'] or '-'} {c['delay']}{'u' if c.get('until') else ''} {c['seed']} {c['keyups']} {c['maxsamples']} {c['pace']} {c['extra_on']} {c.get('stall', 0)} {c.get('minsamples', 0)}"
 
 
 def parse_result(line):
@@ -233,7 +238,7 @@ def run_parallel(ctx, exe, lines, workers, timeout=900):
         if not ch:
             return []
         rc, out = ctx.run_exe(exe, input_text="\n".join(ch) + "\n", timeout=timeout)
-        res = [l for l in out.split("\n") if l.startswith("state=")]
+        res = [l for l in out.split("\n") if l.startswith("state=")][:len(ch)]
         return res + [f"state=-1 threw=0 fed=0 nbytes=0 error=harness-rc{rc} bytes=-"] * (len(ch) - len(res))
     with ThreadPoolExecutor(max_workers=workers) as ex:
         parts = list(ex.map(one, chunks))
